@@ -188,12 +188,21 @@ func boundsRule(name string, pkgs []string, filter func(c *C, fn *ssa.Function) 
 			ord := map[string]int{}
 			for _, b := range fn.Blocks {
 				for _, in := range b.Instrs {
+					isMake := false
 					switch x := in.(type) {
 					case *ssa.IndexAddr, *ssa.Index, *ssa.Slice:
 					case *ssa.Lookup:
 						if _, isMap := x.X.Type().Underlying().(*types.Map); isMap {
 							continue
 						}
+					case *ssa.MakeSlice:
+						// make([]T, n, m) panics on a negative or inverted size: a computed size is an obligation too
+						_, lc := x.Len.(*ssa.Const)
+						_, cc := x.Cap.(*ssa.Const)
+						if lc && cc {
+							continue
+						}
+						isMake = true
 					default:
 						continue
 					}
@@ -208,7 +217,13 @@ func boundsRule(name string, pkgs []string, filter func(c *C, fn *ssa.Function) 
 					if ord[expr] > 1 {
 						con = fmt.Sprintf("index %s#%d", expr, ord[expr])
 					}
-					if !unproven[pos] {
+					if isMake {
+						con = "make " + expr
+						if ord[expr] > 1 {
+							con = fmt.Sprintf("make %s#%d", expr, ord[expr])
+						}
+					}
+					if !unproven[pos] && !isMake {
 						byA++
 						o := c.Add(name, fnName(fn), con, in.Pos(), true, "bounds check eliminated by the Go compiler's prove pass")
 						o.Trivial = true
